@@ -6,8 +6,8 @@ open Tongo.PoolSelect (Conn)
 /-- repaired updateBest: progress of the two loops and agreement of what the selection loop uses with what the first
 loop read -/
 structure InvS (s : State) : Prop where
-  readLen : ∀ i seqs, s.run = .ubRead i seqs → i ≤ s.heads.length
-  selLen : ∀ i seqs acc, s.run = .ubSel i seqs acc → i ≤ s.heads.length ∧ seqs.length = s.heads.length ∧
+  readLen : ∀ i seqs rts, s.run = .ubRead i seqs rts → i ≤ s.heads.length
+  selLen : ∀ i seqs rts acc, s.run = .ubSel i seqs rts acc → i ≤ s.heads.length ∧ seqs.length = s.heads.length ∧
     ∀ (k : Nat) (c : Conn), acc[k]? = some c → seqs[k]? = some c.seqno
 
 theorem invS_step {v s a s'} (hv : v.oneSnapshot = true) (hL : InvL s) (h : InvS s) (hs : step v s a = some s') :
@@ -17,26 +17,26 @@ theorem invS_step {v s a s'} (hv : v.oneSnapshot = true) (hL : InvL s) (h : InvS
   have hro := hL.readOk
   have hso := hL.selOk
   constructor
-  · intro i seqs hr
+  · intro i seqs rts hr
     rw [hlen]
-    have key : (∃ j q, s.run = .ubRead j q ∧ (j = i ∨ (i = j + 1 ∧ j < s.heads.length))) ∨ i = 0 := by
+    have key : (∃ j q r, s.run = .ubRead j q r ∧ (j = i ∨ (i = j + 1 ∧ j < s.heads.length))) ∨ i = 0 := by
       cases a <;> step_cases hs <;> grind [State.setW, State.setS]
-    rcases key with ⟨j, q, hj, rfl | ⟨rfl, hlt⟩⟩ | rfl
-    · exact readLen j q hj
+    rcases key with ⟨j, q, r, hj, rfl | ⟨rfl, hlt⟩⟩ | rfl
+    · exact readLen j q r hj
     · omega
     · omega
-  · intro i seqs acc hr
+  · intro i seqs rts acc hr
     rw [hlen]
-    have key : (∃ j, s.run = .ubRead j seqs ∧ ¬ j < s.heads.length ∧ i = 0 ∧ acc = []) ∨
-        (∃ j q, s.run = .ubSel j seqs q ∧ ((j = i ∧ q = acc) ∨
+    have key : (∃ j r, s.run = .ubRead j seqs r ∧ ¬ j < s.heads.length ∧ i = 0 ∧ acc = []) ∨
+        (∃ j q, s.run = .ubSel j seqs rts q ∧ ((j = i ∧ q = acc) ∨
           (i = j + 1 ∧ j < s.heads.length ∧ ∃ al rt, acc = q ++ [Conn.mk j al (seqs.getD j 0) rt]))) := by
       cases a <;> step_cases hs <;> grind [State.setW, State.setS]
-    rcases key with ⟨j, hj, hnlt, rfl, rfl⟩ | ⟨j, q, hj, hcase⟩
-    · have h1 := readLen j seqs hj
-      have h2 := (hro j seqs hj).1
+    rcases key with ⟨j, r, hj, hnlt, rfl, rfl⟩ | ⟨j, q, hj, hcase⟩
+    · have h1 := readLen j seqs r hj
+      have h2 := (hro j seqs r hj).1
       exact ⟨by omega, by omega, by intro k c hc; simp at hc⟩
-    · obtain ⟨h1, h2, h3⟩ := selLen j seqs q hj
-      have hql := (hso j seqs q hj).1
+    · obtain ⟨h1, h2, h3⟩ := selLen j seqs rts q hj
+      have hql := (hso j seqs rts q hj).1
       rcases hcase with ⟨rfl, rfl⟩ | ⟨rfl, hlt, al, rt, rfl⟩
       · exact ⟨h1, h2, h3⟩
       · refine ⟨by omega, h2, ?_⟩
@@ -54,12 +54,12 @@ theorem invS_step {v s a s'} (hv : v.oneSnapshot = true) (hL : InvL s) (h : InvS
 
 theorem invS_init (heads best targets pubs st rtts) : InvS (mkInit heads best targets pubs st rtts) := by
   constructor
-  · intro i seqs hr; simp [mkInit] at hr
-  · intro i seqs acc hr; simp [mkInit] at hr
+  · intro i seqs rts hr; simp [mkInit] at hr
+  · intro i seqs rts acc hr; simp [mkInit] at hr
 
 theorem reachable_invS {v s} (hv : v.oneSnapshot = true) (h : Reachable v s) : InvS s := by
   induction h with
-  | init heads best targets pubs st rtts hp hh => exact invS_init ..
+  | init heads best targets pubs st rtts hp hh hb => exact invS_init ..
   | step hr hs ih => exact invS_step hv (reachable_invL hr) ih hs
 
 /-- the maximum loop over heads = the maximum loop over the members carrying these heads -/
